@@ -49,6 +49,13 @@ def spell_like(d, rng):
             values.append(val)
         c['rho'] = values.index(val) + 1
     d['rhovalues'] = values
+    # importances for one particle, or for two particles as a list (IMP:N,P=x) or as separate keywords; a BUT
+    # list then overrides both particles, again in either form (the importance of a cell is the maximum)
+    impstyle = rng.choice(['n', 'list', 'sep'])
+    for c in d['cells']:
+        if not c.get('like') and impstyle != 'n':
+            c['impsrc'] = 'cellmulti'
+            c['imptxt'] = ('imp:n,p=%d' % c['imp']) if impstyle == 'list' else ('imp:n=%d imp:p=%d' % (c['imp'], c['imp']))
     for c in d['cells']:
         c['trclspell'] = '3'
         c['ftrspell'] = '3'
@@ -61,7 +68,11 @@ def spell_like(d, rng):
             elif key == 'rho':
                 toks.append('rho=%s' % c['rhotxt'])
             elif key == 'imp':
-                toks.append('imp:n=%d' % c['imp'])
+                if impstyle == 'n':
+                    toks.append('imp:n=%d' % c['imp'])
+                else:
+                    toks.append(rng.choice(['imp:n,p=%d' % c['imp'], 'imp:n=%d imp:p=%d' % (c['imp'], c['imp']),
+                                            'imp:p=%d imp:n=%d' % (c['imp'], c['imp'])]))
             elif key == 'fill':
                 toks.append('fill=%d' % c['fill'] + (' (0 1 1)' if c['hasftr'] else ''))
             elif key == 'u':
